@@ -39,7 +39,8 @@ type tableNodeSpec struct {
 	Fill    uint32 // randomises the low bits of the id
 	IPClass string // "public", "lan", "loopback"
 	Live    bool
-	Size    int // ENR size to pad to (0 none, up to 300)
+	Size    int  // ENR size to pad to (0 none, up to 300)
+	Moved   bool // after it was added, a newer record of the node with another endpoint reaches the table (inbound contact)
 }
 
 func genTableNodes(t *rapid.T, maxN int) []tableNodeSpec {
@@ -59,7 +60,8 @@ func genTableNodes(t *rapid.T, maxN int) []tableNodeSpec {
 		out[i] = tableNodeSpec{Dist: d, Fill: rapid.Uint32().Draw(t, "fill"),
 			IPClass: rapid.SampledFrom([]string{"public", "public", "public", "lan", "loopback"}).Draw(t, "ipc"),
 			Live:    rapid.IntRange(0, 4).Draw(t, "live") != 0,
-			Size:    rapid.SampledFrom([]int{0, 0, 120, 200, 300, 300}).Draw(t, "size")}
+			Size:    rapid.SampledFrom([]int{0, 0, 120, 200, 300, 300}).Draw(t, "size"),
+			Moved:   rapid.IntRange(0, 7).Draw(t, "moved") == 0}
 	}
 	return out
 }
@@ -88,7 +90,13 @@ func fillTable(l *pp.Live, specs []tableNodeSpec) portalwire.VerifTableSnap {
 	tab := l.P.VerifTable()
 	self := l.Node().ID()
 	for i, s := range specs {
-		tab.VerifAddFoundNode(specNode(self, i, s), s.Live)
+		n := specNode(self, i, s)
+		tab.VerifAddFoundNode(n, s.Live)
+		if s.Moved {
+			// same id, higher sequence number, other port: the table takes it over and must forget that the old
+			// endpoint was verified
+			tab.VerifAddInboundNode(gen.NullNodePadded(n.ID(), specIP(s.IPClass, i), 7000+i%5000, 2, s.Size))
+		}
 	}
 	return tab.VerifSnapshot()
 }
@@ -271,6 +279,12 @@ func checkNodesReply(reply []byte, self *enode.Node, before portalwire.VerifTabl
 		c.NT("limit-32-reached")
 	}
 	// truncated by size: more eligible nodes existed than were returned
+	for id, ent := range ix.entries {
+		if covered[ix.bucket[id]] && !ent.Live && ent.Seq > 1 {
+			c.NT("moved-unverified-entry-in-covered-bucket")
+			break
+		}
+	}
 	eligible := 0
 	for id, ent := range ix.entries {
 		if covered[ix.bucket[id]] && ent.Live && netutil.CheckRelayIP(asker, net.IP(ent.IP.AsSlice())) == nil {
